@@ -371,3 +371,106 @@ Print Assumptions C16_parse_line_gen_roundtrip_int.
 Print Assumptions C16_parse_line_gen_blank.
 Print Assumptions C16_byte_args_gen_eq_partial.
 Print Assumptions C16_byte_args_gen_eq_refuted.
+
+(* ------------------------------------------------------------------------------------------------------------
+   Extension: the per-rule immediate-argument parsers regenerated from the lambdas of parser_rules, handle_gtxn /
+   handle_gtxna / handle_gtxnas and the parse_*_field functions (Gen/ShapeGen.v, exceptions read by class), from
+   Lemmas/ShapeGenLemmas.v *)
+From Coq Require Import List String NArith ZArith Bool Arith.
+From Tealer Require Import Tables Syntax Parse KeysGen LineGen ShapeGen LineGenLemmas ShapeGenLemmas.
+
+(* every rule of the regenerated table, in order, on EVERY argument string: the lambda = the model's parse_shape of
+   the rule's shape read with Python's int() in place of parse_int (value or exception class) *)
+Theorem C16_rule_lambdas_eq_w : Forall2 rule_agrees_w shape_rules_gen parser_rules.
+Proof. exact shape_rules_gen_eq_w. Qed.
+(* ... hence against Parse.parse_shape (lambda_spec): equal incl. the exception class where the integer tokens are
+   plain and a lone first piece is an integer; equal up to the class where the integer tokens are plain; on every
+   string the model never accepts more than the code, with the same immediates; the order condition is exact *)
+Theorem C16_rule_lambdas_eq_partial : Forall2 rule_agrees shape_rules_gen parser_rules.
+Proof. exact shape_rules_gen_eq_partial. Qed.
+(* the witnesses of the difference: `load -1` (Python's int() accepts the sign), `gload zz` (ValueError / IndexError) *)
+Theorem C16_rule_lambdas_eq_refuted :
+  exists g, first_rule_gen "load -1" shape_rules_gen = Some ("load ", g) /\
+    first_rule "load -1" parser_rules = Some ("load ", "Load", SInt) /\
+    g "-1" = Val (VObj "Load" (VInt (-1) :: nil)) /\ model_rule "Load" SInt "-1" = None /\ ints_plain SInt "-1" = false.
+Proof. exact shape_rules_gen_eq_refuted. Qed.
+Theorem C16_rule_lambdas_class_refuted :
+  exists g, first_rule_gen "gload zz" shape_rules_gen = Some ("gload ", g) /\
+    first_rule "gload zz" parser_rules = Some ("gload ", "Gload", SInt2) /\
+    g "zz" = Raise ValueError /\ model_rule_x "Gload" SInt2 "zz" = Raise IndexError /\
+    ints_plain SInt2 "zz" = true /\ order_ok SInt2 "zz" = false.
+Proof. exact shape_rules_gen_class_refuted. Qed.
+(* the same through the dispatcher *)
+Theorem C16_rule_dispatch_eq_partial : forall line key cls sh, first_rule line parser_rules = Some (key, cls, sh) ->
+  exists g, first_rule_gen line shape_rules_gen = Some (key, g) /\ lambda_spec g cls sh.
+Proof. exact shape_dispatch_eq_partial. Qed.
+(* the instruction the regenerated parse_line builds through parse_shape is the object the lambda constructs *)
+Theorem C16_apply_rule_backed : forall line key cls sh x ins,
+  first_rule line parser_rules = Some (key, cls, sh) -> apply_rule (cls, sh) x = Some ins ->
+  exists g ps, first_rule_gen line shape_rules_gen = Some (key, g) /\
+    g x = Val (VObj cls (map embed_param ps)) /\ ins = new_instruction cls ps.
+Proof. exact apply_rule_backed. Qed.
+(* the model read with int() against the model, per shape *)
+Theorem C16_parse_shape_w_eq_partial : forall sh x, ints_plain sh x = true -> order_ok sh x = true ->
+  parse_shape_w sh x = mapx (map embed_param) (of_res_x (parse_shape sh x)).
+Proof. exact parse_shape_w_eq_partial. Qed.
+Theorem C16_parse_shape_w_erase_eq_partial : forall sh x, ints_plain sh x = true ->
+  erase (parse_shape_w sh x) = option_map (map embed_param) (of_res (parse_shape sh x)).
+Proof. exact parse_shape_w_erase_eq_partial. Qed.
+Theorem C16_parse_shape_w_complete : forall sh x ps, parse_shape sh x = Ok ps -> parse_shape_w sh x = Val (map embed_param ps).
+Proof. exact parse_shape_w_complete. Qed.
+(* "the same immediates": the Python values determine the model's parameters among the results of one shape *)
+Theorem C16_parse_shape_embed_inj : forall sh x x' ps ps', parse_shape sh x = Ok ps -> parse_shape sh x' = Ok ps' ->
+  map embed_param ps = map embed_param ps' -> ps = ps'.
+Proof. exact parse_shape_embed_inj. Qed.
+(* _parse_int / _is_int translated with exception classes are the functions of Gen/LineGen.v *)
+Theorem C16_parse_int_x_gen_raising : forall x, parse_int_x_gen x = raising ValueError (parse_int_gen x).
+Proof. exact parse_int_x_gen_raising. Qed.
+Theorem C16_is_int_x_gen_eq : forall x, is_int_x_gen x = Val (is_int x).
+Proof. exact is_int_x_gen_eq. Qed.
+(* the field parsers *)
+Theorem C16_parse_transaction_field_gen_stack_eq : forall x,
+  parse_transaction_field_gen x true = mapx embed_field (of_res_x (parse_tx_field x true)).
+Proof. exact parse_transaction_field_gen_stack_eq. Qed.
+Theorem C16_parse_transaction_field_gen_eq_partial : forall x, forallb int_plain (tx_int_args x) = true ->
+  parse_transaction_field_gen x false = mapx embed_field (of_res_x (parse_tx_field x false)).
+Proof. exact parse_transaction_field_gen_eq_partial. Qed.
+Theorem C16_parse_transaction_field_gen_complete : forall x us f, parse_tx_field x us = Ok f ->
+  parse_transaction_field_gen x us = Val (embed_field f).
+Proof. exact parse_transaction_field_gen_complete. Qed.
+Theorem C16_parse_transaction_field_gen_eq_refuted :
+  exists x v, parse_transaction_field_gen x false = Val v /\ of_res (parse_tx_field x false) = None.
+Proof. exact parse_transaction_field_gen_eq_refuted. Qed.
+Theorem C16_parse_global_field_gen_eq : forall x,
+  parse_global_field_gen x = mapx embed_field (of_res_x (parse_named_field global_fields x)).
+Proof. exact parse_global_field_gen_eq. Qed.
+Theorem C16_parse_asset_holding_field_gen_eq : forall x,
+  parse_asset_holding_field_gen x = mapx embed_field (of_res_x (parse_named_field asset_holding_fields x)).
+Proof. exact parse_asset_holding_field_gen_eq. Qed.
+Theorem C16_parse_asset_params_field_gen_eq : forall x,
+  parse_asset_params_field_gen x = mapx embed_field (of_res_x (parse_named_field asset_params_fields x)).
+Proof. exact parse_asset_params_field_gen_eq. Qed.
+Theorem C16_parse_app_params_field_gen_eq : forall x,
+  parse_app_params_field_gen x = mapx embed_field (of_res_x (parse_named_field app_params_fields x)).
+Proof. exact parse_app_params_field_gen_eq. Qed.
+Theorem C16_parse_acct_params_field_gen_eq : forall x,
+  parse_acct_params_field_gen x = mapx embed_field (of_res_x (parse_named_field acct_params_fields x)).
+Proof. exact parse_acct_params_field_gen_eq. Qed.
+
+Print Assumptions C16_rule_lambdas_eq_w.
+Print Assumptions C16_rule_lambdas_eq_partial.
+Print Assumptions C16_rule_lambdas_eq_refuted.
+Print Assumptions C16_rule_lambdas_class_refuted.
+Print Assumptions C16_rule_dispatch_eq_partial.
+Print Assumptions C16_apply_rule_backed.
+Print Assumptions C16_parse_shape_w_eq_partial.
+Print Assumptions C16_parse_shape_w_erase_eq_partial.
+Print Assumptions C16_parse_shape_w_complete.
+Print Assumptions C16_parse_shape_embed_inj.
+Print Assumptions C16_parse_int_x_gen_raising.
+Print Assumptions C16_parse_transaction_field_gen_stack_eq.
+Print Assumptions C16_parse_transaction_field_gen_eq_partial.
+Print Assumptions C16_parse_transaction_field_gen_complete.
+Print Assumptions C16_parse_transaction_field_gen_eq_refuted.
+Print Assumptions C16_parse_global_field_gen_eq.
+Print Assumptions C16_parse_acct_params_field_gen_eq.
